@@ -130,9 +130,48 @@ def build(t, cutname, event, n, nby):
     return c
 
 
+def eof_with_message(t, armed, order, n):
+    """the victim's orderly EOF and a message of a healthy peer are BOTH waiting when recv polls (the victim's ready
+    event is ahead of the other's): recv returns the message — and the socket has observed the victim's end in that
+    same call, so the victim must be forgotten and released just the same"""
+    fr = [b"", b"live"] if t == "REP" else [b"\x01t"] if t == "XPUB" else [b"live"]
+    sc = wg.Script()
+    sc.sock(1, t)
+    sc.attach(1, 1, PEER[t], b"victim")
+    sc.attach(1, 2, PEER[t], b"by2")
+    sc.add("wire 1", "wire 2")
+    if armed:
+        # a first recv finds nothing: both streams are polled and left with their wakers armed
+        f = sc.fut()
+        sc.add(f"recv {f} 1", f"poll {f}", f"drop {f}")
+    if order == "eof-first":
+        sc.add("eof 1")
+        sc.reveal_msg(2, fr)
+    else:
+        sc.reveal_msg(2, fr)
+        sc.add("eof 1")
+    f = sc.fut()
+    sc.add(f"recv {f} 1", f"poll {f}", f"drop {f}", "halves 1")
+    # later sends must not reach the victim
+    if t in wg.CAN_SEND:
+        for i in range(3):
+            g = sc.fut()
+            m = [b"victim", b"s%d" % i] if t == "ROUTER" else [b"s%d" % i] if t == "REP" else [b"a", b"s%d" % i]
+            sc.add(f"send {g} 1 {wg.mtok(m)}", f"poll {g}", f"drop {g}")
+    sc.add("drain", "wire 1", "halves 1")
+    c = sc.case(f"{t}:eofmsg:{'armed' if armed else 'fresh'}-{order}#{n}", ["eof-with-message"])
+    c.expect = ("eofmsg", t)
+    return c
+
+
 def cases(tier, rng):
     out = gen.corpus(ID)
     n = 0
+    for t in ("PULL", "SUB", "DEALER", "ROUTER", "REP", "XPUB"):
+        for armed in (False, True):
+            for order in ("eof-first", "message-first"):
+                out.append(eof_with_message(t, armed, order, n))
+                n += 1
     for t in PEER:
         _, cuts, _ = victim_stream(t)
         for cutname in cuts:
@@ -152,6 +191,18 @@ def oracle(case, lines):
         if l.startswith(("PANIC", "ABORT")):
             return f"panic/abort in `{op}`"
     if not case.expect:
+        return None
+    if case.expect[0] == "eofmsg":
+        t = case.expect[1]
+        res = list(zip(case.ops, lines[1:]))
+        got = [l for op, l in res if op.startswith("poll") and l.startswith("ready ok M[")]
+        if t != "SUB" and not got:
+            return "the healthy peer's message was not delivered"
+        if res[-1][1] != "halves r=1 w=1":
+            return (f"the victim's end was observed in the same recv call that returned another peer's message, yet its "
+                    f"connection is not released: {res[-1][1]} (r = read half, w = write half)")
+        if res[-2][1] != "wire .":
+            return f"a later send was still written to the departed peer: {res[-2][1][:60]}"
         return None
     t, cutname, event, registered, nby = case.expect
     res = list(zip(case.ops, lines[1:]))
@@ -212,6 +263,8 @@ def nontrivial(case, lines):
 
 
 def signature(case, ml, il, o):
+    if ":eofmsg:" in case.name:
+        return case.name.split(":")[0] + ":eofmsg"
     t, event, cutname = case.name.split("#")[0].split(":")
     if o and ("not released" in o or "still written to the departed peer" in o):
         return f"{t}:{event}:kept"
